@@ -28,12 +28,13 @@ let encw f room arg =
   match f (n_of_int (int_of_string room)) (bytes_of_hex arg) with
   | Ok ((held, _), ok) -> (if ok then "Ok " else "Err ") ^ arg_of_text held
   | Err _ -> "Err?" | Panic _ -> "Panic" | OutOfFuel -> "OutOfFuel"
+let nokind (_ : n) : string = ""
 let str_kind (e : n) : string =
   match int_of_n e with 6 -> "TooLong" | _ -> kind e
 let show_res errk f (o : 'a outcome) : string =
   match o with
   | Ok a -> "Ok " ^ f a
-  | Err e -> "Err " ^ errk e
+  | Err e -> String.trim ("Err " ^ errk e)
   | Panic _ -> "Panic"
   | OutOfFuel -> "OutOfFuel"
 let enc f spec arg =
@@ -102,6 +103,23 @@ let handle = function
   | ["smark"; a] -> "Ok " ^ string_of_bool (c18_smark (text_of_arg a))
   | "scent" :: l -> show_res scan2_kind hex_of_bytes (c18_scent (List.map text_of_arg l))
   | "sesym" :: l -> show_res scan2_kind (fun l -> join (List.map (function Some y -> sym_obs y | None -> "E") l)) (c18_sesym (List.map text_of_arg l))
+  | ["encf64"; a] -> enc c18_enc64 c18_spec_enc64 a
+  | ["encf32"; a] -> enc c18_enc32 c18_spec_enc32 a
+  | ["encf16"; a] -> enc c18_enc16 c18_spec_enc16 a
+  | ["serj64"; a] -> show_res nokind arg_of_text (c18_enc64 (bytes_of_hex a))
+  | ["serj32"; a] -> show_res nokind arg_of_text (c18_enc32 (bytes_of_hex a))
+  | ["serj16"; a] -> show_res nokind arg_of_text (c18_enc16 (bytes_of_hex a))
+  | ["serjd64"; a] -> show_res nokind hex_of_bytes (c18_dec64 (text_of_arg a))
+  | ["serjd32"; a] -> show_res nokind hex_of_bytes (c18_dec32 (text_of_arg a))
+  | ["serjd16"; a] -> show_res nokind hex_of_bytes (c18_dec16 (text_of_arg a))
+  | [("serc64" | "serc32" | "serc16" | "sercd64" | "sercd32" | "sercd16" | "saltc" | "hashc"); a] ->
+      show_res nokind hex_of_bytes (c18_serc (bytes_of_hex a))
+  | ["saltcd"; a] -> show_res nokind hex_of_bytes (c18_saltcd (bytes_of_hex a))
+  | ["hashcd"; a] -> show_res nokind hex_of_bytes (c18_hashcd (bytes_of_hex a))
+  | ["saltj"; a] -> show_res nokind arg_of_text (c18_saltdisp (bytes_of_hex a))
+  | ["hashj"; a] -> show_res nokind arg_of_text (c18_hashdisp (bytes_of_hex a))
+  | ["saltjd"; a] -> show_res nokind hex_of_bytes (c18_saltstr (text_of_arg a))
+  | ["hashjd"; a] -> show_res nokind hex_of_bytes (c18_hashstr (text_of_arg a))
   | "conv64" :: l -> conv c18_conv64 l
   | "conv32" :: l -> conv c18_conv32 l
   | "conv16" :: l -> conv c18_conv16 l
